@@ -60,7 +60,7 @@ ASSUMPTIONS = [
     "cross-set models are run with use_pca=False (thorough: also n_pca_modes='all'); PCA truncation is C09/C16's subject",
     "fractions/correlations an accessor refuses on the source node are compared as 'refused on both nodes' (differential oracle, DESIGN 4.2)",
 ]
-TALLY_KEYS = ("model", "kind", "container", "depth", "latname")
+TALLY_KEYS = ("model", "kind", "container", "depth", "latname", "wpres")
 TRUSTED = ["statsmodels import shim (/verif/shims) so that xeofs.cross constructors can be called; correction=None never reaches it"]
 MAX_REFUSED_FRACTION = 0.02
 
@@ -329,6 +329,35 @@ def cases(tier, seed):
         for model, alpha in (("MCA", [1.0, 1.0]), ("CPCCA", [0.5, 0.5]), ("CPCCA", [0.0, 1.0]), ("CCA", [0.0, 0.0])):
             cross_pca(model, alpha, ALLF, PCA_P_T)
 
+    # ---------------------------------------------------------------- presentation of the user weights
+    # xarray objects are matched by LABEL: a weight field carrying the data's coordinate labels in another storage order
+    # (latitude N->S while the data is S->N, a permuted dimension) or only a subset of the feature dimensions is the same
+    # weight field. Every weights == pre-multiplied-data path (fold) is repeated under each presentation of the weights.
+    extra = []
+    for c in out:
+        kinds = [e["kind"] for e in c["path"]]
+        if "fold" not in kinds:
+            continue
+        single_set = len(c["shape"]) == 2
+        two_lons = all(GRID[p][1] > 1 for p in c["shape"][1:])
+        if c["depth"] == 1 or c["kind"] == "cos2w>fold":
+            if single_set or thorough:
+                pres = ["rev", "perm"] + (["lat", "lat_rev"] if (c["container"] == "DA" and two_lons) else [])
+            else:
+                pres = ["perm"] + (["lat_rev"] if (c["container"] == "DA" and two_lons) else [])
+            if c["kind"] == "cos2w>fold":  # the latitude-name sweep: one non-trivial order, lat-only weights under the plain name
+                if thorough:
+                    pres = ["perm"] + (["lat_rev"] if (c["latname"] == "lat" and c["container"] == "DA" and two_lons) else [])
+                else:
+                    pres = ["perm"] if (c["latname"] == "lat" or c["container"] != "DA") else []
+        else:
+            pres = ["perm"] if (c["model"] in ("EOF", "MCA") and c["center"] and (thorough or single_set)) else []
+        for pr in pres:
+            extra.append(dict(c, wpres=pr))
+    out += extra
+    for c in out:
+        c.setdefault("wpres", "same")
+
     for c in out:
         if "patterns" in c:
             c["patterns"] = thorough  # homogeneous/heterogeneous correlation patterns are compared in the thorough tier only (0.1 s per fit)
@@ -420,7 +449,11 @@ class Ctx:
         self.W, self.u = [], []
         for i, p in enumerate(sh[1:]):
             rng = np.random.default_rng([int(seed), 808, p, i])
-            self.W.append(0.5 + 2.0 * rng.random(p))
+            W = 0.5 + 2.0 * rng.random(p)
+            if str(case.get("wpres", "same")).startswith("lat"):  # weights given on a subset of the feature dims (latitude only)
+                nlat, nlon = GRID[p]
+                W = np.repeat(W[:nlat], nlon)
+            self.W.append(W)
             u = (0.5 + rng.random(p)) * np.where(rng.random(p) < 0.5, -1.0, 1.0)
             if self.cplx:
                 u = u + 1j * (0.5 + rng.random(p)) * np.where(rng.random(p) < 0.5, -1.0, 1.0)
@@ -474,12 +507,42 @@ class Ctx:
     def fit(self, node):
         case = self.case
         args = [self.fields[f].build(node[f]["M"]) for f in range(self.nf)]
-        wts = [None if node[f]["w"] is None else self.fields[f].build(node[f]["w"][None, :], with_time=False) for f in range(self.nf)]
+        wts = [None if node[f]["w"] is None else self._present_weights(self.fields[f], node[f]["w"]) for f in range(self.nf)]
         with warnings.catch_warnings():
             warnings.simplefilter("ignore")
             if self.nf == 1:
                 return self._fit_single(node, args[0], wts[0])
             return self._fit_cross(node, args, wts)
+
+    def _present_weights(self, fld, wvec):
+        """the weight vector (label-keyed: column j = lat j//nlon, lon j%nlon) as an xarray object in the case's presentation:
+        same labels, possibly another storage order per feature dim, possibly only the latitude dimension."""
+        import xarray as xr
+
+        pres = str(self.case.get("wpres", "same"))
+        if pres.startswith("lat") and fld.container == "DA" and fld.nlon > 1:
+            col = wvec.reshape(fld.nlat, fld.nlon)
+            assert np.array_equal(col, np.repeat(col[:, :1], fld.nlon, axis=1)), "harness error: lat-only weights must be constant along lon"
+            obj = xr.DataArray(col[:, 0].copy(), dims=(fld.latname,), coords={fld.latname: fld.lats}, name=fld.tag + "_w")
+        else:
+            obj = fld.build(wvec[None, :], with_time=False)
+        order = pres.split("_")[-1]
+        if order not in ("rev", "perm"):
+            return obj
+
+        def reorder(o):
+            idx = {}
+            for d in (fld.latname, "lon"):
+                if d in o.dims and o.sizes[d] > 1:
+                    n = o.sizes[d]
+                    if d == "lon":
+                        if order == "perm":
+                            idx[d] = np.arange(n)[::-1]
+                    else:
+                        idx[d] = np.arange(n)[::-1] if order == "rev" else np.roll(np.arange(n), 1)
+            return o.isel(idx)
+
+        return [reorder(o) for o in obj] if isinstance(obj, list) else reorder(obj)
 
     def _fit_single(self, node, X, w):
         import xeofs as xe
@@ -553,14 +616,16 @@ class Ctx:
         """per-cell factor the fitted Scaler multiplies the (centred) data with, times the gain of the node's data over the base
         data: coslat_weights_ * weights_ / std_ * g.  White-box: exactly the state the property's anchors name."""
         outs = []
-        for sc in pre.scaler.transformers:
-            g = sc.weights_
+        fld = self.fields[f]
+        ones = fld.build(np.ones((1, fld.p)), with_time=False)  # label-aligned broadcast of lat-only weights onto the feature grid
+        ones = ones if isinstance(ones, list) else [ones]
+        for i, sc in enumerate(pre.scaler.transformers):
+            g = ones[i] * sc.weights_
             if sc.with_coslat:
                 g = g * sc.coslat_weights_
             if sc.with_std:
                 g = g / sc.std_
             outs.append(g.expand_dims(one=[0]))
-        fld = self.fields[f]
         obj = outs if fld.container == "LIST" else outs[0]
         return fld.features(obj, ("one", np.array([0])))[:, 0] * node[f]["g"]
 
@@ -788,6 +853,7 @@ def _mode_errs(a, b, c, strict, es, j):
 
 def node_keys(case):
     base = {k: case[k] for k in ("model", "shape", "spec", "center", "standardize", "container", "latname", "lats", "n_modes", "start")}
+    base["wpres"] = case.get("wpres", "same")
     base["alpha"] = case.get("alpha")
     base["pca"] = case.get("pca")
     return [json.dumps([base, case["path"][:i]], sort_keys=True) for i in range(len(case["path"]) + 1)]
@@ -828,7 +894,7 @@ def run_case(case, seed):
     return dict(
         violations=V, outcome="violation" if V else ("ok" if nontrivial else "ok:values_only"), nontrivial=nontrivial,
         states=0, transitions=len(case["path"]), traces=len(rels),
-        info=dict(nodes=node_keys(case), delta=float(worst), margin=float(margin), kind=case["kind"], latname=case["latname"], **totals),
+        info=dict(nodes=node_keys(case), delta=float(worst), margin=float(margin), kind=case["kind"], latname=case["latname"], wpres=case.get("wpres", "same"), **totals),
     )
 
 
@@ -866,6 +932,9 @@ def vacuity(outcomes, results, tier):
     missing = {"shift", "affine", "global", "fold", "cos2w"} - kinds
     if missing:
         return "edge kinds never validated: %s" % sorted(missing)
+    pres = {i.get("wpres") for i in infos if "fold" in i.get("kind", "")}
+    if not {"same", "rev", "perm", "lat", "lat_rev"} <= pres:
+        return "weights == pre-multiplied data validated under weight presentations %s only" % sorted(map(str, pres))
     names = {i.get("latname") for i in infos if "cos2w" in i.get("kind", "")}
     if len(names & set(LATNAMES)) < len(LATNAMES):
         return "use_coslat validated for %d of the %d accepted latitude names only" % (len(names & set(LATNAMES)), len(LATNAMES))
